@@ -70,7 +70,9 @@ class World:
         if (is_plain(a) or isinstance(a, (list, tuple, set, frozenset, dict))) and (is_plain(b) or isinstance(b, (list, tuple, set, frozenset, dict))):
             if isinstance(a, (list, tuple)) and isinstance(b, (list, tuple)) and name == 'Add':
                 return type(a)(list(a) + list(b)) if type(a) is type(b) else operator.add(a, b)
-            try: return ops[name](a, b)
+            try:
+                r = ops[name](a, b)
+                return LocalList(r) if type(r) is list else r        # a list built by the interpreted code is its own
             except ZeroDivisionError as e: raise PyExc(ZeroDivisionError, e.args)
             except TypeError as e: raise PyExc(TypeError, e.args)
         raise Outside(f'native binop {name} on {type(a).__name__}, {type(b).__name__}')
